@@ -58,6 +58,37 @@ struct NestingGuard {
     explicit NestingGuard(int &d) : depth(d) { ++depth; }
     ~NestingGuard() { --depth; }
 };
+
+// True for an expression built only from variables, integer literals, element
+// and member accesses and side-effect free operators. Evaluating such an
+// expression a second time cannot be observed, and
+// RecursiveParser::cloneAstNode copies every field these node kinds use, so
+// the desugaring `T op= v`  ->  `T = T op v` may repeat it.
+bool isRepeatableExpr(const ASTNode *n) {
+    if (!n) {
+        return false;
+    }
+    switch (n->node_type) {
+    case ASTNodeType::AST_VARIABLE:
+        return true;
+    case ASTNodeType::AST_NUMBER:
+        return !n->is_float_literal;
+    case ASTNodeType::AST_ARRAY_REF:
+        return isRepeatableExpr(n->left.get()) &&
+               isRepeatableExpr(n->array_index.get());
+    case ASTNodeType::AST_MEMBER_ACCESS:
+        return isRepeatableExpr(n->left.get());
+    case ASTNodeType::AST_BINARY_OP:
+        return isRepeatableExpr(n->left.get()) &&
+               isRepeatableExpr(n->right.get());
+    case ASTNodeType::AST_UNARY_OP:
+        return (n->op == "-" || n->op == "!" || n->op == "~" ||
+                n->op == "DEREFERENCE") &&
+               isRepeatableExpr(n->left.get());
+    default:
+        return false;
+    }
+}
 } // namespace
 
 ASTNode *ExpressionParser::parseExpression() {
@@ -165,9 +196,20 @@ ASTNode *ExpressionParser::parseAssignment() {
                 ASTNode *array_ref_copy =
                     new ASTNode(ASTNodeType::AST_ARRAY_REF);
                 // 配列参照をコピー（左辺と右辺で同じものを参照）
-                ASTNode *var_copy = new ASTNode(ASTNodeType::AST_VARIABLE);
-                var_copy->name = static_cast<ASTNode *>(left->left.get())->name;
-                array_ref_copy->left = std::unique_ptr<ASTNode>(var_copy);
+                if (left->left &&
+                    left->left->node_type != ASTNodeType::AST_VARIABLE &&
+                    isRepeatableExpr(left->left.get())) {
+                    // m[i][j] op= v, s.a[i] op= v: the base of the element is
+                    // itself an element or member access (it has no name of
+                    // its own); copy it completely.
+                    array_ref_copy->left = std::unique_ptr<ASTNode>(
+                        parser_->cloneAstNode(left->left.get()));
+                } else {
+                    ASTNode *var_copy = new ASTNode(ASTNodeType::AST_VARIABLE);
+                    var_copy->name =
+                        static_cast<ASTNode *>(left->left.get())->name;
+                    array_ref_copy->left = std::unique_ptr<ASTNode>(var_copy);
+                }
 
                 // インデックス式をディープコピー
                 ASTNode *index_copy = nullptr;
